@@ -63,6 +63,7 @@ type ArchiveDecoder struct {
 	d    FormatDecoder
 	dir  string
 	last interface{}
+	root bool // the root entry, the only one without a filename, has been decoded
 }
 
 // NewArchiveDecoder initializes a decoder for a catar archive.
@@ -163,6 +164,14 @@ loop:
 			return nil, fmt.Errorf("unsupported element %s in archive", reflect.TypeOf(d))
 		}
 	}
+
+	// Only the first entry, the root of the archive, has no filename. Any other
+	// entry without one would resolve to the directory it appears in and replace
+	// it, including the directory the archive is extracted to.
+	if name == "" && a.root {
+		return nil, InvalidFormat{"entry without filename in archive"}
+	}
+	a.root = true
 
 	// If it doesn't have a payload or is a device/symlink, it must be a directory
 	if payload == nil && device == nil && symlink == nil {
